@@ -13,9 +13,10 @@ MSG_PREFIX = '\x02MSG:'
 class SymLeaf:
     """abstract matcher leaf: matches(m) is a symbolic boolean fixed per message"""
 
-    def __init__(self, ctx, name, always=None):
+    def __init__(self, ctx, name, always=None, label=None):
         self.ctx = ctx
         self.name = name
+        self.label = label          # what the leaf PRINTS as (distinct leaves may print alike, as real matchers can)
         self._always = always
         self.v = {}
         self.calls = []
@@ -39,8 +40,10 @@ class SymLeaf:
         return self._always
 
     def __str__(self):
+        return self.label if self.label is not None else '<' + self.name + '>'
+
+    def __repr__(self):
         return '<' + self.name + '>'
-    __repr__ = __str__
 
 
 def install_show_stub():
@@ -90,10 +93,11 @@ def make_world(ctx, nconn, display=None, stop=None, show_stub=True):
     return w
 
 
-def add_message(w, ci, t=None, name='sync', sent=True, args=()):
+def add_message(w, ci, t=None, name='sync', sent=True, args=(), target_id=1):
+    """target_id other than 1 names an object that was never created: the message stays on an unresolved object"""
     from core import wl
     n = len(w.msgs)
-    m = wl.Message(float(n) if t is None else t, wl.UnresolvedObject(1, 'wl_display'), sent, name, args)
+    m = wl.Message(float(n) if t is None else t, wl.UnresolvedObject(target_id, 'wl_display' if target_id == 1 else None), sent, name, args)
     m.tag = n
     w.msgs.append((m, ci))
     w.manager.message('conn%d' % ci, m)
